@@ -56,11 +56,10 @@ impl Queues {
         Queues { v: Vec::new(), policy, policy_of: Vec::new(), interrupts: 0, completions: 0, scribble: SCRIBBLE_ALL.with(|s| s.get()), scribbles: 0, decoys: true }
     }
 
-    /// Overwrite driver-owned queue areas of queue `q` (everything except the available index,
-    /// which the device itself still needs to find new entries).
+    /// Overwrite driver-owned queue areas of queue `q`.
     pub fn scribble_queue(&mut self, w: &mut World, q: u16) {
         let Some(seed) = self.scribble else { return };
-        let Some(s) = self.v.get(q as usize).and_then(|s| s.as_ref()) else { return };
+        let Some(s) = self.v.get_mut(q as usize).and_then(|s| s.as_mut()) else { return };
         let n = s.rq.n as usize;
         self.scribbles += 1;
         let k = self.scribbles as u8;
@@ -68,6 +67,8 @@ impl Queues {
         let _ = w.hal.poke(s.rq.desc, &garbage);
         let _ = w.hal.poke(s.rq.avail, &garbage[..2]);
         let _ = w.hal.poke(s.rq.avail + 4, &garbage[..2 * n]);
+        // ... and the available index itself, once everything in the ring has been fetched
+        s.rq.scribble_avail_idx(&w.hal);
     }
 
     pub fn policy_for(&self, q: u16) -> Serve {
